@@ -3,25 +3,40 @@ Require Import Base Inject InjectProofs.
 
 (* for every type universe (is_iface / implements supplied by reflect), every chain of scopes: *)
 
-(* an exact registration in a scope is what that scope answers, before any outer scope *)
+(* an exact (valid) registration in a scope is what that scope answers, before any outer scope *)
 Theorem C04_exact_nearest : forall is_iface implements s parents t v,
-  lookup s t = Some v -> value is_iface implements (s :: parents) t = [v].
+  exact s t = Some v -> value is_iface implements (s :: parents) t = [v].
 Proof. exact value_exact_nearest. Qed.
 
 (* no exact registration, interface type: values registered in THAT scope under implementing types,
    before outer scopes are consulted (Go picks any of them: the model answers the whole set) *)
 Theorem C04_implementors_before_parent : forall is_iface implements s parents t,
-  lookup s t = None -> is_iface t = true -> implementors implements s t <> [] ->
+  exact s t = None -> is_iface t = true -> impl_entries implements s t <> [] ->
+  (forall e, In e (impl_entries implements s t) -> snd e <> None) ->
   value is_iface implements (s :: parents) t = implementors implements s t.
 Proof. exact value_implementors. Qed.
 
 Theorem C04_else_parent : forall is_iface implements s parents t,
-  lookup s t = None -> (is_iface t = false \/ implementors implements s t = []) ->
+  exact s t = None -> (is_iface t = false \/ impl_entries implements s t = []) ->
   value is_iface implements (s :: parents) t = value is_iface implements parents t.
 Proof. exact value_falls_to_parent. Qed.
 
+(* an entry that holds an invalid reflect.Value hides nothing in outer scopes ... *)
+Theorem C04_invalid_is_absent : forall is_iface implements s parents t,
+  lookup s t = Some None -> is_iface t = false ->
+  value is_iface implements (s :: parents) t = value is_iface implements parents t.
+Proof. exact invalid_is_absent. Qed.
+
+(* ... and the admissible answers in general *)
+Theorem C04_admissible : forall is_iface implements s parents t v,
+  exact s t = None -> is_iface t = true -> impl_entries implements s t <> [] ->
+  (In v (value is_iface implements (s :: parents) t) <->
+   (exists e, In e (impl_entries implements s t) /\ snd e = Some v) \/
+   ((exists e, In e (impl_entries implements s t) /\ snd e = None) /\ In v (value is_iface implements parents t))).
+Proof. exact value_admissible. Qed.
+
 (* a later registration for the same type in the same scope replaces the earlier *)
-Theorem C04_replace : forall s k v1 v2, lookup (register (register s k v1) k v2) k = Some v2.
+Theorem C04_replace : forall s k v1 v2, lookup (register (register s k v1) k v2) k = Some (Some v2).
 Proof. exact replace_last. Qed.
 
 (* values mapped during a request are visible to that request at once and to no other scope *)
@@ -59,11 +74,13 @@ Proof. exact fast_eq_call. Qed.
 Example C04_example :
   (* universe: 0 concrete implementing interface 1; request scope maps 0, application scope maps 1 exactly *)
   let ii := fun t => Nat.eqb t 1 in let im := fun k t => Nat.eqb k 0 && Nat.eqb t 1 in
-  value ii im [[(0, 7)]; [(1, 9)]] 1 = [7] /\ value ii im [[]; [(1, 9)]] 1 = [9] /\
-  resolve ii im [[(0, 7)]] [0; 2; 1] = IError 2.
+  value ii im [[(0, Some 7)]; [(1, Some 9)]] 1 = [7] /\ value ii im [[]; [(1, Some 9)]] 1 = [9] /\
+  value ii im [[(1, None)]; [(1, Some 9)]] 1 = [9] /\ value ii im [[(2, None)]; [(2, Some 5)]] 2 = [5] /\
+  resolve ii im [[(0, Some 7)]] [0; 2; 1] = IError 2.
 Proof. vm_compute. repeat split. Qed.
 
 Redirect "assum/C04.1" Print Assumptions C04_implementors_before_parent.
 Redirect "assum/C04.2" Print Assumptions C04_request_local.
 Redirect "assum/C04.3" Print Assumptions C04_invoke_error.
 Redirect "assum/C04.4" Print Assumptions C04_invoke_args.
+Redirect "assum/C04.5" Print Assumptions C04_admissible.
